@@ -343,7 +343,20 @@ class C13(SimCheck):
                    f"{json.dumps(pa[i:i + 1])} without them and {json.dumps(pb[i:i + 1])} with them "
                    f"(lengths {len(pa)}/{len(pb)})")
             if bounded:
-                fails.append(("C13:shared-iteration-budget", "with an iteration limit: " + msg))
+                # the step / iteration budget is one for all nodes (F13): x's events may use it up, so the
+                # others may get LESS - but what they do get is still the same, in the same order
+                def body(p):
+                    k = next((j for j, e in enumerate(p) if e[0] == "cb" and e[2] == "finish"), len(p))
+                    return p[:k]
+                ba, bb = body(pa), body(pb)
+                m = min(len(ba), len(bb))
+                if ba[:m] != bb[:m]:
+                    j = next(k for k in range(m) if ba[k] != bb[k])
+                    fails.append(("C13:interference", f"node-scoped requests of silent node {x} changed what the others "
+                                  f"observe (not explained by the shared step budget): entry #{j} is "
+                                  f"{json.dumps(ba[j])} without them and {json.dumps(bb[j])} with them"))
+                else:
+                    fails.append(("C13:shared-iteration-budget", "with an iteration limit: " + msg))
             else:
                 fails.append(("C13:interference", msg))
             return fails
